@@ -114,6 +114,34 @@ dropty!(D8, 8, u32);
 dropty!(D16, 16, [u32; 3]);
 dropty!(D4S12, 4, [u32; 2]);
 
+thread_local! {
+    /// drops of zero-sized drop types (they cannot carry an id): a plain counter, read around single operations
+    pub static ZST_DROPS: std::cell::Cell<u64> = const { std::cell::Cell::new(0) };
+}
+pub fn zst_drops() -> u64 {
+    ZST_DROPS.with(|c| c.get())
+}
+macro_rules! zstdrop {
+    ($name:ident, $a:literal) => {
+        /// zero-sized type with a destructor (a guard / token type)
+        #[repr(C, align($a))]
+        pub struct $name;
+        impl Ty for $name {
+            const NEEDS_DROP: bool = true;
+            fn make(_id: u32) -> Self {
+                $name
+            }
+        }
+        impl Drop for $name {
+            fn drop(&mut self) {
+                ZST_DROPS.with(|c| c.set(c.get() + 1));
+            }
+        }
+    };
+}
+zstdrop!(DZ1, 1);
+zstdrop!(DZ8, 8);
+
 pub trait Visitor {
     type Out;
     fn visit<T: Ty>(self, meta: &TyMeta) -> Self::Out;
@@ -143,7 +171,7 @@ macro_rules! table {
 table!(
     A1S0, A1S1, A1S2, A1S3, A1S5, A1S7, A1S8, A1S9, A1S17, A1S33, A1S64, A2S0, A2S2, A2S6, A2S10,
     A4S0, A4S4, A4S12, A4S20, A8S0, A8S8, A8S16, A8S24, A8S40, A8S64, A16S0, A16S16, A16S32,
-    A16S48, D4, D8, D16, D4S12, u8, u16, u32, u64, u128
+    A16S48, D4, D8, D16, D4S12, u8, u16, u32, u64, u128, DZ1, DZ8
 );
 
 macro_rules! prim {
